@@ -12,7 +12,6 @@ import (
 	protokinesis "reduction.dev/reduction-protocol/kinesispb"
 	"reduction.dev/reduction/connectors"
 	"reduction.dev/reduction/connectors/kinesis"
-	"reduction.dev/reduction/connectors/kinesis/kinesisfake"
 	"reduction.dev/reduction/connectors/kinesis/kinesispb"
 	"reduction.dev/reduction/proto/snapshotpb"
 	"reduction.dev/reduction/proto/workerpb"
@@ -31,7 +30,7 @@ import (
 //   - all incarnations together have emitted every written record exactly once.
 func kinesisReaderCase(c *lib.Ctx) {
 	r := c.R
-	srv, _ := kinesisfake.StartFake()
+	srv, _ := startKinesisFake(c)
 	defer srv.Close()
 	client := kinesis.NewLocalClient(srv.URL)
 	ctx := context.Background()
